@@ -187,32 +187,7 @@ func checkC14(c *Check) {
 	checkHostOpen(c)
 
 	// ---------- 3: fresh decode target per message ----------
-	for _, fk := range [][2]string{{"container", "containerServer.recvLoop"}, {"container", "container.recvLoop"}} {
-		fn := p.Func(fk[0], fk[1])
-		if fn == nil {
-			c.Undecided("3/fresh-decode-target", fk[0]+"."+fk[1], "-", "function not found")
-			continue
-		}
-		var recv ssa.CallInstruction
-		for _, ci := range callInstrs(fn) {
-			if n, _ := calleeOf(ci); strings.HasSuffix(n, "container.socket).RecvMsg") {
-				recv = ci
-			}
-		}
-		key := fk[0] + "." + strings.ReplaceAll(fk[1], ".", "·")
-		if recv == nil {
-			c.Fail("3/fresh-decode-target", key, p.Pos(fn.Pos()), "receive loop does not call the socket's RecvMsg")
-			continue
-		}
-		tgt := recv.Common().Args[1]
-		if mi, ok := tgt.(*ssa.MakeInterface); ok {
-			tgt = mi.X
-		}
-		a, isAlloc := tgt.(*ssa.Alloc)
-		c.Cond(isAlloc && inLoop(a.Block()) && inLoop(recv.Block()), "3/fresh-decode-target", key, p.Pos(recv.Pos()), "every message is decoded into a freshly allocated value",
-			"messages are decoded into a value that lives across iterations: gob leaves fields absent from the wire untouched, so a request inherits fields (flags, mode, paths) of the previous one")
-	}
-	c.Expect("3/fresh-decode-target", 2)
+	checkFreshDecode(c, "3/fresh-decode-target")
 }
 
 func firstElem(v ssa.Value) (ssa.Value, bool) {
@@ -408,4 +383,41 @@ func checkHostOpen(c *Check) {
 		c.Cond(ok, "2/host-open", "container.(host)Symlink:length-check", p.Pos(sy.Pos()), "reply length is checked against the request", "the reply's length is not checked against the request")
 	}
 	c.Expect("2/host-open", 6)
+}
+
+// checkFreshDecode: both receive loops decode every message into a value
+// allocated inside the loop. gob leaves fields that are absent from the wire
+// (zero values are not transmitted) untouched, so a decode target that lives
+// across iterations makes a request inherit the previous request's fields
+// (seccomp filter, rlimits, environment, descriptor flags, open flags ...).
+// Shared by every property whose guarantee is about "the parameters of THIS
+// request" (C01, C07, C08, C10, C14, C19).
+func checkFreshDecode(c *Check, rule string) {
+	p := c.P
+	for _, fk := range [][2]string{{"container", "containerServer.recvLoop"}, {"container", "container.recvLoop"}} {
+		fn := p.Func(fk[0], fk[1])
+		if fn == nil {
+			c.Undecided(rule, fk[0]+"."+fk[1], "-", "function not found")
+			continue
+		}
+		var recv ssa.CallInstruction
+		for _, ci := range callInstrs(fn) {
+			if n, _ := calleeOf(ci); strings.HasSuffix(n, "container.socket).RecvMsg") {
+				recv = ci
+			}
+		}
+		key := fk[0] + "." + strings.ReplaceAll(fk[1], ".", "·")
+		if recv == nil {
+			c.Fail(rule, key, p.Pos(fn.Pos()), "receive loop does not call the socket's RecvMsg")
+			continue
+		}
+		tgt := recv.Common().Args[1]
+		if mi, ok := tgt.(*ssa.MakeInterface); ok {
+			tgt = mi.X
+		}
+		a, isAlloc := tgt.(*ssa.Alloc)
+		c.Cond(isAlloc && inLoop(a.Block()) && inLoop(recv.Block()), rule, key, p.Pos(recv.Pos()), "every message is decoded into a freshly allocated value",
+			"messages are decoded into a value that lives across iterations: gob leaves fields absent from the wire untouched, so a request inherits fields (flags, mode, paths) of the previous one")
+	}
+	c.Expect(rule, 2)
 }
